@@ -83,7 +83,8 @@ def gen_case(rng, all_atom=None):
             'seed': rng.randint(0, 10 ** 6),
             'target': rng.choice([1, 3, 5, 12, 50, 120]) + (0.5 if aa else 0),
             'start': rng.choice([None, None, 'F0'])}
-    if not aa:
+    if not aa or rng.random() < 0.3:
+        # (all-atom samplers may be given masses too instead of guessing them from the elements)
         case['masses'] = {'F%d' % i: rng.choice([1, 2, 10]) for i in range(nf)}
     return case
 
@@ -271,7 +272,7 @@ def gen_case_wellformed(rng, all_atom=None):
     case = {'kind': 'sampler', 's': '{' + ','.join(frags) + '}', 'all_atom': aa, 'poly': pr, 'fragr': fr, 'terminals': ter,
             'seed': rng.randint(0, 10 ** 6), 'target': rng.choice([1, 3, 5, 12, 40]) + (0.5 if aa else 0),
             'start': rng.choice([None, None, 'F0'])}
-    if not aa:
+    if not aa or rng.random() < 0.3:
         case['masses'] = {('F%d' % i): rng.choice([1, 2, 10]) for i in range(nf)}
         case['masses']['END'] = rng.choice([1, 3])
         case['masses']['ETA'] = 1
